@@ -52,7 +52,7 @@ CHECKS["C11"] = dict(
     text="A specification-level record of the most recent request of each kind (visibility, buffer, mouse, title) is proved consistent with the reference terminal's DEC private modes 25/47/1000/1003 and title after every in-domain history interleaved with text/cursor/erase/resize operations, for all 16 capability combinations and unknown initial modes: supported modes follow the last request despite elision, unsupported modes and never-requested kinds keep the terminal's own value, nothing is sent without the capability, BEL/ST terminator by capability, disable mirrors enable. Additionally (C11_modes_any_size / C11_modes_readme, via rstep_modes) the same consistency holds with no assumption relating positions to sizes (README use without set_size, lying set_size, silent terminal resize, moves to any non-negative position).",
     note=VTNOTE, technique="Lean 4 proof: per-event mode-effect lemma + refinement to an abstract 'last requested' spec by induction; exhaustive capability x mode-sequence sweep as tie", ref="§5 C11")
 CHECKS["C13"] = dict(
-    text="When the record names the element last written or the attribute left by an erase (and by the simulation invariant the terminal really has that rendition and character set in effect), an element with the same attribute and charset is transmitted as its glyph bytes only (also inside strings, also after an erase); moving to the position the cursor is known - and by the invariant really is - at, and requesting the visibility already in effect, transmit nothing.",
+    text="When the record names the element last written or the attribute left by an erase (and by the simulation invariant the terminal really has that rendition and character set in effect), an element with the same attribute and charset is transmitted as its glyph bytes only (also inside strings, also after an erase); moving to the position the cursor is known - and by the invariant really is - at, and requesting the visibility already in effect, transmit nothing. A status query (DSR 5/6, primary DA) sent through the raw entry point terminal::write leaves the record untouched and still true of the terminal (C13_status_query, feed_statusQuery), so the clauses apply across it.",
     note=VTNOTE, technique="Lean 4 theorems on the encoder model lifted to the terminal by the simulation invariant; repeated-operation sweeps as tie", ref="§5 C13")
 
 CHECKS["C17"] = dict(
